@@ -33,9 +33,13 @@ Outcome(ep, announced, requested) ==
   THEN IF announced = requested THEN "parsed" ELSE "mismatch"
   ELSE IF announced \in TypesN THEN "parsed" ELSE "unsupported"
 
-VARIABLES ep, announced, requested
-vars == <<ep, announced, requested>>
-Init == /\ ep \in EntryPoints /\ announced \in Codes
+\* dir: the application header announcing the type is an input header or an output header -- the type stands in
+\* both, and which of the two it is never matters to the routing
+Dirs == {"I", "O"}
+VARIABLES ep, announced, requested, dir
+vars == <<ep, announced, requested, dir>>
+Init == /\ ep \in EntryPoints /\ announced \in Codes /\ dir \in Dirs
+        /\ (dir = "O") => ep \in Typed \cup {"auto"}      \* the plugins and the wrapper sit behind auto-detection
         /\ requested \in (IF ep \in Typed THEN TypesN ELSE {0})
 Next == UNCHANGED vars
 Spec == Init /\ [][Next]_vars
@@ -47,6 +51,6 @@ UnsupportedReported == (ep \notin Typed /\ announced \notin TypesN) => Outcome(e
 NeverParsedAsOther == Outcome(ep, announced, requested) = "parsed" =>
                          (announced \in TypesN /\ (ep \in Typed => requested = announced))
 
-Emit == EmitCases => PrintT(ToJson([ep |-> ep, a |-> announced, r |-> requested,
+Emit == EmitCases => PrintT(ToJson([ep |-> ep, a |-> announced, r |-> requested, dir |-> dir,
                                     out |-> Outcome(ep, announced, requested)]))
 =============================================================================
